@@ -38,6 +38,13 @@ func TestCheck(t *testing.T) {
 		replay(r, f)
 		return
 	}
+	for _, a := range executeArms {
+		r.Floor("executor-arm-"+a.name, 4)
+	}
+	for _, a := range readinessArms {
+		r.Floor("executor-arm-"+a.name, 5)
+	}
+	r.Floor("clean-creator-base-close-fails", 5)
 	for _, s := range []string{"waiter-cancelled-during-clean", "clean-failure-on-acquire", "clean-failure-on-release", "acquirers-racing-after-release-clean",
 		"directory-creation-failure", "concurrent-actions-in-distinct-directories", "through-clean-runner",
 		"executor-ends-ok", "executor-ends-runner-error", "executor-ends-cancelled", "executor-ends-missing-command", "concurrent-executors",
@@ -113,9 +120,16 @@ func TestCheck(t *testing.T) {
 	for i := 0; i < r.Pick(6, 60); i++ {
 		calls := 2 + i%4
 		for f := 0; f <= calls; f++ {
-			cleanCreatorOverFailingBase(r, failingBaseCfg{Case: i, Calls: calls, FailAt: f, Holder: false})
-			cleanCreatorOverFailingBase(r, failingBaseCfg{Case: i, Calls: calls, FailAt: f, Holder: true})
+			cleanCreatorOverFailingBase(r, failingBaseCfg{Case: i, Calls: calls, FailAt: f, FailCloseAt: -1, Holder: false})
+			cleanCreatorOverFailingBase(r, failingBaseCfg{Case: i, Calls: calls, FailAt: f, FailCloseAt: -1, Holder: true})
+			cleanCreatorOverFailingBase(r, failingBaseCfg{Case: i, Calls: calls, FailAt: -1, FailCloseAt: f, Holder: false})
+			cleanCreatorOverFailingBase(r, failingBaseCfg{Case: i, Calls: calls, FailAt: -1, FailCloseAt: f, Holder: true})
 		}
+	}
+
+	// (5c) every exit path of LocalBuildExecutor.Execute / CheckReadiness.
+	for i := 0; i < r.Pick(12, 200); i++ {
+		executorArms(r, armsCfg{Case: i, Executors: 1 + (i+i/3)%3, RealCleaner: i%2 == 0, CharDevices: i%3 == 0})
 	}
 
 	// (6) LocalBuildExecutor.
@@ -185,6 +199,11 @@ func replay(r *ev.Run, file string) {
 		var c stackCfg
 		if !bad(json.Unmarshal(raw, &c)) {
 			creatorScripted(r, c)
+		}
+	case "executor-arms":
+		var c armsCfg
+		if !bad(json.Unmarshal(raw, &c)) {
+			executorArms(r, c)
 		}
 	case "executor":
 		var c execCfg
